@@ -5,7 +5,8 @@
    between any pair of contiguous slices. *)
 From Coq Require Import QArith ZArith List Bool Arith.
 From LV Require Import Align.DP Align.Calign Align.LibScore Align.Opt Align.OptProofs
-  Align.Malign Align.MalignOptProofs.
+  Align.Malign Align.MalignOptProofs Align.SelfDist Align.SelfDistShipped.
+From LVGen Require Import Scorers.
 Import ListNotations.
 Local Open Scope Q_scope.
 
@@ -97,6 +98,48 @@ Theorem C03_edit_dist_bounds :
      Z.max (Z.of_nat (length A)) (Z.of_nat (length B)))%Z.
 Proof. exact edit_dist_bounds. Qed.
 Print Assumptions C03_edit_dist_bounds.
+
+(* Self-distance: for EVERY shipped sound-class model with a scoring matrix (the list
+   [shipped_scorers] and its finite obligation are regenerated from /repo/src/lingpy/data/models/*/matrix
+   on every run), every word over the model's inventory (classes in the range of its converter), every
+   prosodic string, gap weights with non-positive penalties, scale >= 0, factor >= 0 - at EVERY scale,
+   not only scale = 1 - and global, overlap and local mode, primary or secondary: the similarity of the
+   word with itself is its self-score, so the normalised distance is 0 (guard: self-score <> 0,
+   otherwise the Python divides by zero).  Dialign is not covered by a theorem (partial). *)
+Theorem C03_self_distance_zero_shipped :
+  forall cs sc, In (cs, sc) shipped_scorers ->
+  forall (p : cin) (md : mode) (sec : bool),
+    scorer p = sc -> md <> Dialign ->
+    seqB p = seqA p -> proB p = proA p ->
+    (forall a, In a (seqA p) -> In a cs) ->
+    (forall k, nthQ (gopA p) k <= 0) -> (forall k, nthQ (gopB p) k <= 0) ->
+    0 <= scale p -> 0 <= factor p -> seqA p <> [] ->
+    match align p md sec with
+    | RGlobal _ _ sim => sim == self2 p /\ (~ self2 p == 0 -> distance p sim == 0)
+    | RLocal _ _ _ _ _ _ sim => sim == self2 p /\ (~ self2 p == 0 -> distance p sim == 0)
+    | RError => False
+    end.
+Proof. exact shipped_self_similarity. Qed.
+Print Assumptions C03_self_distance_zero_shipped.
+
+(* the abstract version: any scorer that is non-negative on the diagonal and dominated by the
+   average of the two diagonal entries on the symbols of the word *)
+Theorem C03_self_similarity :
+  forall (p : cin) (md : mode) (sec : bool), md <> Dialign ->
+    seqB p = seqA p -> proB p = proA p ->
+    (forall k, nthQ (gopA p) k <= 0) -> (forall k, nthQ (gopB p) k <= 0) ->
+    0 <= scale p -> 0 <= factor p ->
+    (forall a, In a (seqA p) -> 0 <= score_lookup (scorer p) a a) ->
+    (forall a b, In a (seqA p) -> In b (seqA p) ->
+       (2 # 1) * score_lookup (scorer p) a b <= score_lookup (scorer p) a a + score_lookup (scorer p) b b) ->
+    seqA p <> [] ->
+    match align p md sec with
+    | RGlobal _ _ sim => sim == self2 p
+    | RLocal _ _ _ _ _ _ sim => sim == self2 p
+    | RError => False
+    end.
+Proof. exact self_similarity. Qed.
+Print Assumptions C03_self_similarity.
 
 (* the guard of the local theorem is necessary: with a positive gap "penalty" sw_align misses
    the optimum (a/a with gap +1: the matrix gives 1, the alignment a-/-a ... scores 2) *)
